@@ -46,7 +46,8 @@ type pendingFake struct {
 func (p *pendingFake) Cancel() { p.once.Do(func() { close(p.cancelled) }) }
 
 func c20Wrappers() []string {
-	return []string{"UpsertXattrs", "CreateDocument", "UpdateDocument", "DeleteDocument", "GetXattrs", "Get", "CreatePath", "MetadataSave", "MetadataLoad", "Ping", "GetFailOverLogs", "GetVBucketSeqNos", "OpenStream", "CloseStream"}
+	return []string{"UpsertXattrs", "CreateDocument", "UpdateDocument", "DeleteDocument", "GetXattrs", "Get", "CreatePath", "MetadataSave", "MetadataLoad", "Ping", "GetFailOverLogs", "GetVBucketSeqNos", "OpenStream", "CloseStream",
+		"GetVBucketSeqNosColl", "GetCollectionIDs", "MetadataClear"}
 }
 
 // op codes whose reply decides the outcome of a wrapper
@@ -66,8 +67,12 @@ func c20Ops(w string) []byte {
 		return []byte{cbsim.OpNoop}
 	case "GetFailOverLogs":
 		return []byte{cbsim.OpDcpFailoverLog}
-	case "GetVBucketSeqNos":
+	case "GetVBucketSeqNos", "GetVBucketSeqNosColl":
 		return []byte{cbsim.OpGetAllVBSeqnos}
+	case "GetCollectionIDs":
+		return []byte{cbsim.OpGetCollID}
+	case "MetadataClear":
+		return []byte{cbsim.OpDelete}
 	case "OpenStream":
 		return []byte{cbsim.OpDcpStreamReq}
 	case "CloseStream":
@@ -78,7 +83,7 @@ func c20Ops(w string) []byte {
 
 func c20Slow(w string) bool { // hard-coded 60 s (5 s for the checkpoint lookup) deadlines
 	switch w {
-	case "GetFailOverLogs", "GetVBucketSeqNos", "OpenStream", "CloseStream":
+	case "GetFailOverLogs", "GetVBucketSeqNos", "OpenStream", "CloseStream", "GetVBucketSeqNosColl", "GetCollectionIDs":
 		return true
 	}
 	return false
@@ -109,11 +114,17 @@ func init() {
 				} else if tier == "thorough" {
 					behs = append(behs, c20Case{Behaviour: "never"}, c20Case{Behaviour: "late"})
 				}
+				if w == "GetCollectionIDs" || w == "GetVBucketSeqNosColl" {
+					behs = append(behs, c20Case{Behaviour: "status", Status: 0x88}, c20Case{Behaviour: "status", Status: 0x88, Nth: 2})
+				}
 				if w == "Get" || w == "GetXattrs" || w == "DeleteDocument" || w == "UpsertXattrs" || w == "UpdateDocument" {
 					behs = append(behs, c20Case{Behaviour: "status", Status: 0x01})
 				}
 				for _, b := range behs {
 					b.Wrapper = w
+					if w == "GetCollectionIDs" && ((b.Behaviour == "status" && b.Status == 0x86) || b.Behaviour == "drop") && tier != "thorough" {
+						continue // the collection-id lookup is retried on TMPFAIL / a dropped connection until its own 30 s deadline
+					}
 					cases = append(cases, b)
 				}
 			}
@@ -295,6 +306,12 @@ func c20RunWrapper(c c20Case) drv.Result {
 	cfg := env.BaseConfig()
 	cfg.Checkpoint.Timeout = c20Deadline
 	cfg.HealthCheck.Timeout = c20Deadline
+	if c.Wrapper == "GetVBucketSeqNosColl" || c.Wrapper == "GetCollectionIDs" {
+		// two configured collections (the node knows both; an unknown one is scripted through the status behaviour)
+		env.Sim.Collections["_default.c1"] = 8
+		env.Sim.Collections["_default.c2"] = 9
+		cfg.CollectionNames = []string{"c1", "c2"}
+	}
 	cfg.ApplyDefaults()
 	cl := couchbase.NewClient(cfg)
 	if err := cl.Connect(); err != nil {
@@ -305,6 +322,11 @@ func c20RunWrapper(c c20Case) drv.Result {
 	}
 	key := []byte("_connector:cbgo:c20:doc")
 	ckKey := fmt.Sprintf("_connector:cbgo:%s:checkpoint:1", cfg.Dcp.Group.Name)
+	if c.Exists && c.Wrapper == "MetadataClear" {
+		for vb := 0; vb < 4; vb++ {
+			env.Sim.PutDoc(fmt.Sprintf("_connector:cbgo:%s:checkpoint:%d", cfg.Dcp.Group.Name, vb), []byte(`{}`), map[string]json.RawMessage{"cbgo": json.RawMessage(`{"checkpoint":{"snapshot":{"startSeqno":1,"endSeqno":1},"vbuuid":1,"seqno":1},"bucketUuid":"u"}`)})
+		}
+	}
 	if c.Exists {
 		env.Sim.PutDoc(string(key), []byte(`{"a":1}`), map[string]json.RawMessage{"cbgo": json.RawMessage(`{"x":1}`)})
 		env.Sim.PutDoc(ckKey, []byte(`{}`), map[string]json.RawMessage{"cbgo": json.RawMessage(`{"checkpoint":{"snapshot":{"startSeqno":1,"endSeqno":1},"vbuuid":1,"seqno":1},"bucketUuid":"u"}`)})
@@ -363,7 +385,7 @@ func c20RunWrapper(c c20Case) drv.Result {
 	switch c.Wrapper {
 	case "GetXattrs", "MetadataLoad":
 		deadline = 5 * time.Second
-	case "GetFailOverLogs", "GetVBucketSeqNos", "OpenStream", "CloseStream":
+	case "GetFailOverLogs", "GetVBucketSeqNos", "OpenStream", "CloseStream", "GetVBucketSeqNosColl", "GetCollectionIDs":
 		deadline = 60 * time.Second
 	}
 	run := func() {
@@ -400,6 +422,25 @@ func c20RunWrapper(c c20Case) drv.Result {
 			_, callErr = cl.GetFailOverLogs(1)
 		case "GetVBucketSeqNos":
 			_, callErr = cl.GetVBucketSeqNos(false)
+		case "GetVBucketSeqNosColl":
+			_, callErr = cl.GetVBucketSeqNos(true)
+		case "GetCollectionIDs":
+			var ids map[uint32]string
+			ids, callErr = cl.GetCollectionIDs("_default", []string{"c1", "c2"})
+			if callErr == nil {
+				for id, name := range ids {
+					if (name == "c1" && id != 8) || (name == "c2" && id != 9) {
+						callErr = nil
+						gotVal = []byte(fmt.Sprintf("WRONG-ID %s=%d", name, id))
+					}
+				}
+				if len(ids) != 2 && len(gotVal) == 0 {
+					gotVal = []byte(fmt.Sprintf("WRONG-SET %v", ids))
+				}
+			}
+		case "MetadataClear":
+			md := couchbase.NewCBMetadata(cl, cfg)
+			callErr = md.Clear([]uint16{0, 1, 2, 3})
 		case "OpenStream":
 			callErr = cl.OpenStream(2, map[uint32]string{}, &models.Offset{SnapshotMarker: &models.SnapshotMarker{}, LatestSeqNo: ^uint64(0)}, obs)
 		case "CloseStream":
@@ -490,6 +531,9 @@ func c20RunWrapper(c c20Case) drv.Result {
 	res.Sample = map[string]any{"wrapper": c.Wrapper, "behaviour": c.Behaviour, "status": c.Status, "nth": c.Nth, "returned_error": fmt.Sprint(callErr), "elapsed_ms": el.Milliseconds(), "deciding_requests_seen": nreq, "node_confirmed": confirmed}
 	if callErr == nil && !confirmed {
 		return viol("invented-success", fmt.Sprintf("%s returned success although the node never sent an OK reply to the deciding request (behaviour %q, status 0x%x, %d request(s) seen)", c.Wrapper, c.Behaviour, c.Status, nreq))
+	}
+	if callErr == nil && c.Wrapper == "GetCollectionIDs" && strings.HasPrefix(string(gotVal), "WRONG") {
+		return viol("outcome", fmt.Sprintf("GetCollectionIDs returned success with %s (the node knows c1=8, c2=9; behaviour %q status 0x%x)", gotVal, c.Behaviour, c.Status))
 	}
 	if callErr == nil && (c.Wrapper == "GetXattrs" || c.Wrapper == "Get") && c.Exists && len(gotVal) == 0 {
 		return viol("outcome", fmt.Sprintf("%s returned success with an empty value for an existing document", c.Wrapper))
